@@ -338,12 +338,17 @@ func (res *Resource) selectVersion() {
 
 	// 1) Dev release if dev mode is active and ignore blacklisting
 	if res.registry.DevMode {
-		// Get last version, as this will be v0.0.0, if available.
-		rv := res.Versions[len(res.Versions)-1]
-		// Check if it's v0.0.0.
-		if rv.semVer.Equal(devVersion) && rv.Available {
-			res.SelectedVersion = rv
-			return
+		// Look for v0.0.0 from the end: only pre-releases of v0.0.0 sort
+		// behind it.
+		for i := len(res.Versions) - 1; i >= 0; i-- {
+			rv := res.Versions[i]
+			if rv.semVer.GreaterThan(devVersion) {
+				break
+			}
+			if rv.semVer.Equal(devVersion) && rv.Available {
+				res.SelectedVersion = rv
+				return
+			}
 		}
 	}
 
